@@ -370,11 +370,12 @@ theorem opNewView_spec {P : Touch → Prop} {s : State} (kind : Kind) (b : Nat) 
                 have := view_bound_default kind (oVal off 0) _ h0' hm' (Int.natCast_nonneg _) (ne_false_of_bne hnm) hneg
                 simpa [View.hi] using this
 
-theorem opNewDV_spec {P : Touch → Prop} {s : State} (b : Nat) (off len : Option IArg) (c : Ctx P s) :
-    Ctx P (opNewDV s b off len).2 := by
+theorem opNewDV_spec {P : Touch → Prop} {s : State} (b : Nat) (off len : Option IArg) (pdet : List Nat) (c : Ctx P s) :
+    Ctx P (opNewDV s b off len pdet).2 := by
   unfold opNewDV; dsimp only
   have c1 := c.applyDet (oDet off)
   have c2 := c1.applyDet (oDet len)
+  have c3 := c2.applyDet pdet
   split
   · exact c
   · rename_i hb
@@ -390,17 +391,17 @@ theorem opNewDV_spec {P : Touch → Prop} {s : State} (b : Nat) (off len : Optio
           · split
             · exact c2
             · split
-              · exact c2
+              · exact c3
               · split
-                · exact c2
+                · exact c3
                 · split
-                  · exact c2
+                  · exact c3
                   · rename_i hfit
                     split
-                    · exact c2
+                    · exact c3
                     · rename_i hneg
                       have h0' : 0 ≤ oVal off 0 := by simp [toIndexOk] at h0; omega
-                      refine ⟨inv_pushDV c2.inv _ (by show b < _; rw [applyDet_nbufs, applyDet_nbufs]; omega) (fun _ => ?_), c2.log⟩
+                      refine ⟨inv_pushDV c3.inv _ (by show b < _; rw [applyDet_nbufs, applyDet_nbufs, applyDet_nbufs]; omega) (fun _ => ?_), c3.log⟩
                       dsimp only
                       omega
 
@@ -592,5 +593,293 @@ theorem inv_init : Inv ({} : State) := ⟨fun _ h => by simp at h, fun _ h => by
 
 theorem ctx0 {P : Touch → Prop} {s : State} (hi : Inv s) : Ctx P { s with log := [] } :=
   ⟨hi.withLog [], fun _ h => by simp at h⟩
+
+/-! ## operations returning a fresh typed array -/
+
+theorem freshBytes_length (es : Nat) (elems : List (List UInt8)) : (freshBytes es elems).length = elems.length * es := by
+  induction elems with
+  | nil => simp [freshBytes]
+  | cons x xs ih => simp [freshBytes, fit_length, ih, Nat.add_mul]; omega
+
+theorem ctx_pushFresh {P : Touch → Prop} {s : State} (c : Ctx P s) (kind : Kind) (elems : List (List UInt8)) :
+    Ctx P (pushFresh s kind elems) := by
+  refine ⟨?_, c.log⟩
+  unfold pushFresh
+  refine inv_pushView (inv_pushBuf c.inv _) _ (by simp) (fun _ => ?_)
+  have := (rangeOK_newBuf s (freshBytes kind.size elems)).2
+  rw [freshBytes_length] at this
+  simpa [View.hi] using this
+
+theorem ctx_pushAlias {P : Touch → Prop} {s : State} (c : Ctx P s) {dst : View} (hm : dst ∈ s.views) :
+    Ctx P { s with views := s.views ++ [dst] } := by
+  have := c.inv.views dst hm
+  exact ⟨inv_pushView c.inv dst this.1 this.2, c.log⟩
+
+theorem opToReversed_spec {P : Touch → Prop} {s : State} {vi : Nat} {v : View}
+    (hv : s.views[vi]? = some v) (c : Ctx P s) (hP : PRange P v.buf v.lo v.hi) :
+    Ctx P (opToReversed s vi).2 := by
+  unfold opToReversed; rw [hv]; dsimp only
+  split
+  · exact c
+  · rename_i ha
+    have hr := c.inv.rangeOK (mem_of_getElem? hv) (not_not_attached ha)
+    obtain ⟨r1, r2, _⟩ := readElems_spec hP v.length s 0 c.log hr (by omega)
+    exact ctx_pushFresh ⟨c.inv.of_sameShape r2, r1⟩ _ _
+
+theorem opToSorted_spec {P : Touch → Prop} {s : State} {vi : Nat} {v : View} (cmp : Cmp)
+    (hv : s.views[vi]? = some v) (c : Ctx P s) (hP : PRange P v.buf v.lo v.hi) :
+    Ctx P (opToSorted s vi cmp).2 := by
+  unfold opToSorted; rw [hv]; dsimp only
+  split
+  · exact c
+  · rename_i ha
+    have hr := c.inv.rangeOK (mem_of_getElem? hv) (not_not_attached ha)
+    obtain ⟨r1, r2, _⟩ := readElems_spec hP v.length s 0 c.log hr (by omega)
+    have c2 : Ctx P (readElems s v 0 v.length).2 := ⟨c.inv.of_sameShape r2, r1⟩
+    split
+    · exact ctx_pushFresh c2 _ _
+    · rename_i det
+      apply ctx_pushFresh
+      split
+      · exact c2
+      · exact c2.applyDet det
+
+theorem opWith_spec {P : Touch → Prop} {s : State} {vi : Nat} {v : View} (idx : IArg) (a : VArg)
+    (hv : s.views[vi]? = some v) (c : Ctx P s) (hP : PRange P v.buf v.lo v.hi) :
+    Ctx P (opWith s vi idx a).2 := by
+  unfold opWith; rw [hv]; dsimp only
+  have c2 := (c.applyDet idx.det).applyDet a.det
+  have m2 := mem_applyDet (mem_applyDet (mem_of_getElem? hv) idx.det) a.det
+  split
+  · exact c
+  · split
+    · exact c2
+    · split
+      · exact c2
+      · rename_i h
+        have ha : ((s.applyDet idx.det).applyDet a.det).attached v.buf = true := by
+          simp only [isValidIntegerIndex, Bool.not_eq_true', Bool.and_eq_false_iff] at h
+          cases hh : ((s.applyDet idx.det).applyDet a.det).attached v.buf with
+          | true => rfl
+          | false => simp [isValidIntegerIndex, hh] at h
+        obtain ⟨r1, r2, _⟩ := readElems_spec hP v.length _ 0 c2.log (c2.inv.rangeOK m2 ha) (by omega)
+        exact ctx_pushFresh ⟨c2.inv.of_sameShape r2, r1⟩ _ _
+
+theorem filterRead_spec {P : Touch → Prop} {s : State} {v : View} {k : Nat} (c : Ctx P s) (m : v ∈ s.views)
+    (hP : PRange P v.buf v.lo v.hi) (hk : k < v.length) :
+    Ctx P (filterRead s v k).2 ∧ (filterRead s v k).2.views = s.views := by
+  unfold filterRead
+  split
+  · rename_i ha
+    obtain ⟨r1, r2⟩ := readElem_spec c.log (c.inv.rangeOK m ha) hP hk
+    exact ⟨⟨c.inv.of_sameShape r2, r1⟩, r2.views⟩
+  · exact ⟨c, rfl⟩
+
+theorem filterLoop_spec {P : Touch → Prop} {v : View} (keep : List Bool) (detAt : Nat) (det : List Nat)
+    (hP : PRange P v.buf v.lo v.hi) :
+    ∀ (n : Nat) (s : State) (k : Nat) (acc : List (List UInt8)), Ctx P s → v ∈ s.views → k + n ≤ v.length →
+      Ctx P (filterLoop s v keep detAt det k n acc).1 := by
+  intro n
+  induction n with
+  | zero => intro s k acc c _ _; exact c
+  | succ n ih =>
+    intro s k acc c m h
+    unfold filterLoop; dsimp only
+    obtain ⟨c1, v1⟩ := filterRead_spec c m hP (by omega : k < v.length)
+    apply ih
+    · split
+      · exact c1.applyDet det
+      · exact c1
+    · split
+      · rw [applyDet_views, v1]; exact m
+      · rw [v1]; exact m
+    · omega
+
+theorem opFilter_spec {P : Touch → Prop} {s : State} {vi : Nat} {v : View} (keep : List Bool) (detAt : Nat) (det : List Nat)
+    (hv : s.views[vi]? = some v) (c : Ctx P s) (hP : PRange P v.buf v.lo v.hi) :
+    Ctx P (opFilter s vi keep detAt det).2 := by
+  unfold opFilter; rw [hv]; dsimp only
+  split
+  · exact c
+  · exact ctx_pushFresh (filterLoop_spec keep detAt det hP v.length s 0 [] c (mem_of_getElem? hv) (by omega)) _ _
+
+/-- reading the source element of `map` when (and only when) its buffer is attached -/
+theorem mapRead_spec {P : Touch → Prop} {s : State} {v : View} {k : Nat} (c : Ctx P s) (m : v ∈ s.views)
+    (hP : PRange P v.buf v.lo v.hi) (hk : k < v.length) :
+    Ctx P (mapRead s v k) ∧ (mapRead s v k).views = s.views := by
+  unfold mapRead
+  split
+  · rename_i ha
+    obtain ⟨r1, r2⟩ := readElem_spec c.log (c.inv.rangeOK m ha) hP hk
+    exact ⟨⟨c.inv.of_sameShape r2, r1⟩, r2.views⟩
+  · exact ⟨c, rfl⟩
+
+theorem putValid_spec {P : Touch → Prop} {s : State} {dst : View} {k : Nat} (raw : List UInt8) (c : Ctx P s)
+    (md : dst ∈ s.views) (hPd : PRange P dst.buf dst.lo dst.hi) :
+    Ctx P (putValid s dst k raw) ∧ (putValid s dst k raw).views = s.views := by
+  unfold putValid
+  split
+  · rename_i hvalid
+    simp only [isValidIntegerIndex, Bool.and_eq_true, decide_eq_true_eq] at hvalid
+    obtain ⟨w1, w2⟩ := writeElem_spec raw c.log (c.inv.rangeOK md hvalid.1) hPd (by omega : k < dst.length)
+    exact ⟨⟨c.inv.of_sameShape w2, w1⟩, w2.views⟩
+  · exact ⟨c, rfl⟩
+
+theorem mapLoopFresh_spec {P : Touch → Prop} {v : View} (vals : List VArg) (hP : PRange P v.buf v.lo v.hi) :
+    ∀ (n : Nat) (s : State) (k : Nat) (acc : List (List UInt8)), Ctx P s → v ∈ s.views → k + n ≤ v.length →
+      Ctx P (mapLoopFresh s v vals k n acc).2.1 := by
+  intro n
+  induction n with
+  | zero => intro s k acc c _ _; exact c
+  | succ n ih =>
+    intro s k acc c m h
+    unfold mapLoopFresh; dsimp only
+    obtain ⟨c1, v1⟩ := mapRead_spec c m hP (by omega : k < v.length)
+    have c2 := c1.applyDet (valAt vals k).det
+    have m2 : v ∈ ((mapRead s v k).applyDet (valAt vals k).det).views := by
+      rw [applyDet_views, v1]; exact m
+    split
+    · exact c2
+    · exact ih _ _ _ c2 m2 (by omega)
+
+theorem mapLoopDst_spec {P : Touch → Prop} {v dst : View} (vals : List VArg) (hP : PRange P v.buf v.lo v.hi)
+    (hPd : PRange P dst.buf dst.lo dst.hi) :
+    ∀ (n : Nat) (s : State) (k : Nat), Ctx P s → v ∈ s.views → dst ∈ s.views → k + n ≤ v.length →
+      Ctx P (mapLoopDst s v dst vals k n).2 ∧ dst ∈ (mapLoopDst s v dst vals k n).2.views := by
+  intro n
+  induction n with
+  | zero => intro s k c _ md _; exact ⟨c, md⟩
+  | succ n ih =>
+    intro s k c m md h
+    unfold mapLoopDst; dsimp only
+    obtain ⟨c1, v1⟩ := mapRead_spec c m hP (by omega : k < v.length)
+    have c2 := c1.applyDet (valAt vals k).det
+    have hv2 : ((mapRead s v k).applyDet (valAt vals k).det).views = s.views := by
+      rw [applyDet_views, v1]
+    split
+    · exact ⟨c2, by rw [hv2]; exact md⟩
+    · rename_i raw _
+      obtain ⟨c3, v3⟩ := putValid_spec (k := k) raw c2 (by rw [hv2]; exact md) hPd
+      exact ih _ _ c3 (by rw [v3, hv2]; exact m) (by rw [v3, hv2]; exact md) (by omega)
+
+theorem opMap_spec {P : Touch → Prop} {s : State} {vi : Nat} {v : View} (sp : Species) (vals : List VArg)
+    (hv : s.views[vi]? = some v) (c : Ctx P s) (hP : PRange P v.buf v.lo v.hi)
+    (hPd : ∀ di det dst, sp = some (di, det) → s.views[di]? = some dst → PRange P dst.buf dst.lo dst.hi) :
+    Ctx P (opMap s vi sp vals).2 := by
+  unfold opMap; rw [hv]; dsimp only
+  have m := mem_of_getElem? hv
+  split
+  · exact c
+  · split
+    · exact c
+    · split
+      · have := mapLoopFresh_spec vals hP v.length s 0 [] c m (by omega)
+        split
+        · exact ctx_pushFresh this _ _
+        · exact this
+      · rename_i di det _
+        split
+        · exact c
+        · rename_i dst hdst
+          have hPd' := hPd di det dst rfl hdst
+          have c1 := c.applyDet det
+          split
+          · exact c1
+          · split
+            · exact c1
+            · obtain ⟨x, y⟩ := mapLoopDst_spec vals hP hPd' v.length _ 0 c1 (mem_applyDet m det)
+                (mem_applyDet (mem_of_getElem? hdst) det) (by omega)
+              split
+              · rename_i s2 heq
+                rw [heq] at x y
+                exact ctx_pushAlias x y
+              · exact x
+
+theorem convVals_spec {P : Touch → Prop} (kind : Kind) :
+    ∀ (vals : List VArg) (s : State) (acc : List (List UInt8)), Ctx P s → Ctx P (convVals s kind vals acc).2.1 := by
+  intro vals
+  induction vals with
+  | nil => intro s acc c; exact c
+  | cons a as ih =>
+    intro s acc c
+    unfold convVals; dsimp only
+    split
+    · exact c.applyDet a.det
+    · exact ih _ _ (c.applyDet a.det)
+
+theorem setArrLoop_views {v : View} : ∀ (vals : List VArg) (s : State) (k : Nat),
+    (setArrLoop s v k vals).2.views = s.views := by
+  intro vals
+  induction vals with
+  | nil => intro s k; rfl
+  | cons a as ih =>
+    intro s k
+    unfold setArrLoop; dsimp only
+    split
+    · exact applyDet_views _ _
+    · rw [ih]
+      split
+      · unfold State.writeElem
+        have : ∀ (xs : List UInt8) (t : State) (i : Nat), (t.writeRange v.buf i xs).views = t.views := by
+          intro xs
+          induction xs with
+          | nil => intro t i; rfl
+          | cons x xs ihx => intro t i; simp only [State.writeRange]; rw [ihx]; rfl
+        rw [this, applyDet_views]
+      · exact applyDet_views _ _
+
+theorem opOf_spec {P : Touch → Prop} {s : State} (ct : Ctor) (vals : List VArg) (c : Ctx P s)
+    (hPd : ∀ di det dst, ct = .user di det → s.views[di]? = some dst → PRange P dst.buf dst.lo dst.hi) :
+    Ctx P (opOf s ct vals).2 := by
+  unfold opOf
+  split
+  · rename_i kind
+    have := convVals_spec (P := P) kind vals s [] c
+    dsimp only
+    split
+    · exact ctx_pushFresh this _ _
+    · exact this
+  · rename_i di det
+    dsimp only
+    split
+    · exact c
+    · rename_i dst hdst
+      have hPd' := hPd di det dst rfl hdst
+      have c1 := c.applyDet det
+      have md := mem_applyDet (mem_of_getElem? hdst) det
+      split
+      · exact c1
+      · split
+        · exact c1
+        · have x := setArrLoop_spec hPd' vals _ 0 c1 md
+          have y := setArrLoop_views (v := dst) vals (s.applyDet det) 0
+          split
+          · rename_i s2 heq
+            rw [heq] at x y
+            exact ctx_pushAlias x (by rw [y]; exact md)
+          · exact x
+
+theorem opABSlice_spec {P : Touch → Prop} {s : State} (b : Nat) (st fi : Option IArg) (c : Ctx P s)
+    (hP : ∀ hi, PRange P b 0 hi) : Ctx P (opABSlice s b st fi).2 := by
+  unfold opABSlice; dsimp only
+  have hl : (0 : Int) ≤ (s.blen b : Int) := Int.natCast_nonneg _
+  have c2 := (c.applyDet (oDet st)).applyDet (oDet fi)
+  split
+  · exact c
+  · split
+    · split
+      · exact c2
+      · rename_i ha
+        have ha' := not_not_attached ha
+        -- an attached buffer keeps its length: blen after the detaches = blen before
+        have hcnt := slice_count (s.blen b) (relToIdx (oVal st 0) (s.blen b)) (relToIdx (oVal fi (s.blen b)) (s.blen b))
+          ⟨relToIdx_nonneg _ _ hl, relToIdx_le _ _ hl⟩ ⟨relToIdx_nonneg _ _ hl, relToIdx_le _ _ hl⟩
+        simp only [Int.toNat_natCast] at hcnt
+        have hlen : s.blen b ≤ ((s.applyDet (oDet st)).applyDet (oDet fi)).blen b :=
+          Nat.le_trans (blen_applyDet_of_attached _ _ _ (attached_of_applyDet _ _ _ ha')) (blen_applyDet_of_attached _ _ _ ha')
+        obtain ⟨r1, r2, _⟩ := readRange_spec (hP (s.blen b)) _ _ (relToIdx (oVal st 0) (s.blen b)).toNat c2.log
+          ⟨ha', hlen⟩ (Nat.zero_le _) hcnt
+        exact ⟨inv_pushBuf (c2.inv.of_sameShape r2) _, r1⟩
+    · exact ⟨inv_pushBuf c2.inv _, c2.log⟩
 
 end GojaModel.C17
